@@ -52,7 +52,16 @@ func c18run(c *c18Case, via string) c18Obs {
 		release[j] = make(chan struct{})
 		jobs = append(jobs, func(ctx context.Context) (int, error) {
 			close(started[j])
+			// like the real per-epoch search job, give up when the context handed to the job is cancelled
+			// (the request context passed to FirstSuccess stays live for the whole call)
+			if err := ctx.Err(); err != nil {
+				<-release[j]
+				return 0, err
+			}
 			<-release[j]
+			if err := ctx.Err(); err != nil {
+				return 0, err
+			}
 			if c.Outcome[j-1] == "ok" {
 				return j, nil
 			}
